@@ -321,6 +321,70 @@ func streamScope(o *Out, r *rand.Rand, n int, thorough bool) {
 			}
 		}
 	}()
+	// binding histories: a block (function body, if block in a loop, top level) defines, assigns, deletes and re-defines a few
+	// names that are also bound outside; afterwards every name must denote what a chain of two dictionaries says (the nearest
+	// binding, the outer one again once the inner is deleted) - whatever was defined and deleted in that block before
+	for it := 0; it < 60+n/20; it++ {
+		names := []string{"a", "b", "c"}
+		outer := map[string]int64{"a": 100, "b": 200, "c": 300}
+		inner := map[string]int64{}
+		var body strings.Builder
+		steps := 4 + r.Intn(8)
+		if it == 0 {
+			steps = 0 // the history of the seeded change that first needed this family
+			body.WriteString("var a = 1\nvar b = 2\ndelete(\"a\")\nvar b = 3\ndelete(\"b\")\n")
+			inner = map[string]int64{}
+		}
+		for k := 0; k < steps; k++ {
+			nm := names[r.Intn(3)]
+			v := int64(1 + k)
+			switch r.Intn(5) {
+			case 0, 1:
+				fmt.Fprintf(&body, "var %s = %d\n", nm, v)
+				inner[nm] = v
+			case 2:
+				fmt.Fprintf(&body, "%s = %d\n", nm, v)
+				if _, ok := inner[nm]; ok {
+					inner[nm] = v
+				} else {
+					outer[nm] = v
+				}
+			default:
+				fmt.Fprintf(&body, "delete(\"%s\")\n", nm)
+				delete(inner, nm)
+			}
+		}
+		look := func(nm string) int64 {
+			if v, ok := inner[nm]; ok {
+				return v
+			}
+			return outer[nm]
+		}
+		wantIn := []interface{}{look("a"), look("b"), look("c")}
+		wantOut := []interface{}{outer["a"], outer["b"], outer["c"]}
+		var src string
+		switch it % 3 {
+		case 0:
+			src = "a = 100\nb = 200\nc = 300\nfunc f() {\n" + body.String() + "return [a, b, c]\n}\nprobe([f(), [a, b, c]])"
+		case 1:
+			src = "a = 100\nb = 200\nc = 300\ngot = nil\nfor i = 0; i < 1; i++ {\nif true {\n" + body.String() + "got = [a, b, c]\n}\n}\nprobe([got, [a, b, c]])"
+		default:
+			src = "a = 100\nb = 200\nc = 300\ngot = nil\ntry {\n" + body.String() + "got = [a, b, c]\n} catch e {\ngot = \"failed\"\n}\nprobe([got, [a, b, c]])"
+		}
+		stmt, err := parser.ParseSrc(src)
+		if err != nil {
+			o.Fail(Failure{Oracle: "scope-template-parses", Key: "scope-template-parse", Input: src, Detail: err.Error()})
+			continue
+		}
+		res := runVM(stmt, -1, 3*time.Second)
+		o.Case(fmt.Sprintf("(run %d _ %s)", modelFuel, astser.Prog(stmt)), res.line, src, true)
+		o.Sum.Hist["binding-history"]++
+		want := vals.Encode([]interface{}{wantIn, wantOut})
+		if res.err != nil || len(res.trace) == 0 || res.trace[len(res.trace)-1] != want {
+			o.Fail(Failure{Oracle: "scope-binding-visibility", Key: "scope-binding-history:" + firstLine(body.String()), Input: src,
+				Detail: fmt.Sprintf("trace %v err %v, expected last probe %s (a chain of two dictionaries)", res.trace, res.err, want)})
+		}
+	}
 	for _, c := range closureCases {
 		stmt, err := parser.ParseSrc(c.src)
 		if err != nil {
